@@ -47,6 +47,10 @@ pub enum Op {
     PublishFail(u8),
     /// the signer process is restarted: new in-memory state (state machine in Init), same stores on disk
     Restart,
+    /// the chain moves to the next epoch while the aggregator's answer to the signer's next request of the given route
+    /// (0 epoch settings, 1 protocol configuration, 2 register signer, 3 register signatures) is in flight: the
+    /// aggregator has processed the request in the old epoch, the signer sees the answer in the new one
+    EpochChangeInFlight(u8),
 }
 
 impl Op {
@@ -62,10 +66,11 @@ impl Op {
             Op::OthersRegister(m) => format!("G{m}"),
             Op::PublishFail(n) => format!("P{n}"),
             Op::Restart => "R".into(),
+            Op::EpochChangeInFlight(r) => format!("E{}", r % 4),
         }
     }
     fn is_fault(&self) -> bool {
-        matches!(self, Op::AggDown(_) | Op::StaleEpochSettings(_) | Op::RoundClosed(_) | Op::PublishFail(_))
+        matches!(self, Op::AggDown(_) | Op::StaleEpochSettings(_) | Op::RoundClosed(_) | Op::PublishFail(_) | Op::EpochChangeInFlight(_))
     }
 }
 
@@ -96,6 +101,7 @@ fn op_strategy() -> impl Strategy<Value = Op> {
         4 => (1u8..(1 << OTHERS)).prop_map(Op::OthersRegister),
         3 => (1u8..=4).prop_map(Op::PublishFail),
         4 => Just(Op::Restart),
+        3 => (0u8..4).prop_map(Op::EpochChangeInFlight),
     ]
 }
 
@@ -292,7 +298,7 @@ impl World {
         };
         let (epoch, fault_armed) = {
             let a = self.env.agg.state.lock().unwrap();
-            (a.epoch, a.down_left + a.stale_left + a.round_closed_left + a.publish_fail_left > 0)
+            (a.epoch, a.down_left + a.stale_left + a.round_closed_left + a.publish_fail_left > 0 || a.bump_after.is_some())
         };
         self.info.trace.push(StepRec {
             step: self.step,
@@ -308,9 +314,12 @@ impl World {
     async fn apply(&mut self, op: &Op) {
         self.next_step();
         let t0 = std::time::Instant::now();
+        let bumps_before = self.env.agg.state.lock().unwrap().bumps.len();
         self.apply_inner(op).await;
+        let epoch_changed_in_flight = self.env.agg.state.lock().unwrap().bumps.len() != bumps_before;
         let kind = match op {
             Op::Tick if std::mem::take(&mut self.crashed_in_step) => StepKind::Disturbance,
+            Op::Tick if epoch_changed_in_flight => StepKind::Disturbance,
             Op::Tick => StepKind::Tick,
             Op::OthersRegister(_) => StepKind::Neutral,
             _ => StepKind::Disturbance,
@@ -343,6 +352,7 @@ impl World {
                 }
             }
             Op::Restart => self.restart().await,
+            Op::EpochChangeInFlight(route) => self.env.agg.state.lock().unwrap().bump_after = Some(route % 4),
         }
     }
 }
@@ -388,6 +398,11 @@ fn execute(case: &Case) -> Result<(AggState, RunInfo), String> {
             .map_err(|e| format!("env: {e:?}"))?;
         let mut w = World { env, signer: None, info: RunInfo::default(), salt: case.salt, step: 0, crashed_in_step: false };
         w.info.first_epoch = start_epoch;
+        {
+            let mut a = w.env.agg.state.lock().unwrap();
+            a.chain = Some(w.env.chain.clone());
+            a.stakes_fn = Some(stakes_for_epoch);
+        }
         w.set_epoch_stakes(start_epoch).await;
         w.signer = Some(w.env.start_signer().await.map_err(|e| format!("start: {e:?}"))?);
 
@@ -399,6 +414,8 @@ fn execute(case: &Case) -> Result<(AggState, RunInfo), String> {
             }
             for op in ops {
                 w.apply(op).await;
+                // an epoch change in flight moves the chain inside an entry
+                epoch = w.env.agg.state.lock().unwrap().epoch;
             }
         }
         w.info.last_generated_epoch = epoch;
@@ -485,7 +502,12 @@ fn judge(st: &AggState, info: &RunInfo) -> Verdict {
     // --- registrations sent by the signer: label = receipt epoch + 1 (an aggregator's open round rejects others)
     for r in &st.reg_requests {
         if let Some(label) = r.label_epoch {
-            if label != r.receipt_epoch + fakeagg::REG_LABEL {
+            // a request prepared before the chain moved within the same cycle carries the label of the epoch it was
+            // prepared in: an aggregator refuses it (wrong round) and nothing is registered - not a wrong registration
+            let overtaken = r.status != 201 && r.receipt_epoch > 0 && st.received_after_change_in_flight(r.step, r.seq, r.receipt_epoch) && label == r.receipt_epoch - 1 + fakeagg::REG_LABEL;
+            if overtaken {
+                v.labels.push("registration-overtaken-by-epoch-change-in-flight".into());
+            } else if label != r.receipt_epoch + fakeagg::REG_LABEL {
                 v.violations.push((
                     "registration-epoch-label".into(),
                     format!(
@@ -514,6 +536,10 @@ fn judge(st: &AggState, info: &RunInfo) -> Verdict {
         }
     }
 
+    for (_, _, route, _) in &st.bumps {
+        v.labels.push(format!("epoch-change-in-flight:after-{}", ["epoch-settings", "protocol-configuration", "register-signer", "register-signatures"][(*route % 4) as usize]));
+    }
+
     // --- signatures
     // per signing epoch: what an aggregator derives (signer set with stakes, parameters, expected seed parts)
     struct EpochModel {
@@ -527,7 +553,7 @@ fn judge(st: &AggState, info: &RunInfo) -> Verdict {
     let mut models: BTreeMap<u64, EpochModel> = BTreeMap::new();
     let mut acked: BTreeMap<String, Vec<u32>> = BTreeMap::new();
     for r in &st.sig_requests {
-        let e = r.receipt_epoch;
+        let mut e = r.receipt_epoch;
         let Some(msg) = &r.message else {
             v.violations.push(("signature-undecodable".into(), format!("step {}: undecodable /register-signatures body", r.step)));
             continue;
@@ -544,6 +570,12 @@ fn judge(st: &AggState, info: &RunInfo) -> Verdict {
 
         if &msg.party_id != sut {
             v.violations.push(("signature-party".into(), format!("{ctx}: party id {} is not the signer's", msg.party_id)));
+        }
+        if e > 0 && signing_epoch_of(set) == e - 1 && st.received_after_change_in_flight(r.step, r.seq, e) {
+            // made while epoch e-1 was in force, delivered (retry of the same cycle) after the chain moved: judged
+            // against the epoch in force when it was made
+            e -= 1;
+            v.labels.push("signature-overtaken-by-epoch-change-in-flight".into());
         }
         if signing_epoch_of(set) != e {
             v.violations.push((
@@ -1053,6 +1085,10 @@ pub fn run(args: &Args) -> i32 {
         .require_label("fault-hit:stale-epoch-settings")
         .require_label("fault-hit:round-closed")
         .require_label("fault-hit:publish-fail")
+        .require_label("epoch-change-in-flight:after-epoch-settings")
+        .require_label("epoch-change-in-flight:after-protocol-configuration")
+        .require_label("epoch-change-in-flight:after-register-signer")
+        .require_label("epoch-change-in-flight:after-register-signatures")
         .require_label("publish-retry-same-cycle-acked")
         .require_label("publish-retry-later-cycle-acked")
         .require_label("progress-window-in-generated-history")
